@@ -344,6 +344,19 @@ func container(t *rapid.T, l string, small bool) corev1.Container {
 	return c
 }
 
+// hostPortList: the container's port list; often a plain (no hostPort) entry precedes or follows the hostPort entry, as
+// in real manifests.
+func hostPortList(t *rapid.T, l string) []corev1.ContainerPort {
+	hp := hostPort(t, l)
+	switch rapid.IntRange(0, 4).Draw(t, l+"_shape") {
+	case 1, 2:
+		return []corev1.ContainerPort{{ContainerPort: 8081, Protocol: corev1.ProtocolTCP}, hp}
+	case 3:
+		return []corev1.ContainerPort{hp, {ContainerPort: 8081, Protocol: corev1.ProtocolTCP}}
+	}
+	return []corev1.ContainerPort{hp}
+}
+
 func hostPort(t *rapid.T, l string) corev1.ContainerPort {
 	return corev1.ContainerPort{ContainerPort: 80, HostPort: pick(t, hostPorts, l+"_port"), HostIP: pick(t, hostIPs, l+"_ip"), Protocol: pick(t, []corev1.Protocol{corev1.ProtocolTCP, corev1.ProtocolTCP, corev1.ProtocolUDP}, l+"_proto")}
 }
@@ -429,7 +442,7 @@ func PendingPod(t *rapid.T, idx int, k Knobs) *corev1.Pod {
 		p.Spec.Overhead = corev1.ResourceList{corev1.ResourceCPU: resource.MustParse("250m")}
 	}
 	if pct(t, 15, l+"_hostPort") {
-		p.Spec.Containers[0].Ports = []corev1.ContainerPort{hostPort(t, l+"_hp")}
+		p.Spec.Containers[0].Ports = hostPortList(t, l+"_hp")
 	}
 	if pct(t, selPct(30), l+"_nodeSelector") {
 		e := selectorExpr(t, l+"_ns")
@@ -540,7 +553,7 @@ func DaemonSet(t *rapid.T, i int) *appsv1.DaemonSet {
 		spec.Tolerations = []corev1.Toleration{{Operator: corev1.TolerationOpExists}}
 	}
 	if pct(t, 20, l+"_hostPort") {
-		spec.Containers[0].Ports = []corev1.ContainerPort{hostPort(t, l+"_hp")}
+		spec.Containers[0].Ports = hostPortList(t, l+"_hp")
 	}
 	ds := sim.DaemonSetFor(fmt.Sprintf("ds%d", i), "kube-system", spec, map[string]string{"ds": fmt.Sprintf("ds%d", i)})
 	ds.UID = types.UID(fmt.Sprintf("ds-uid-%d", i))
@@ -618,7 +631,7 @@ func BoundPod(t *rapid.T, idx int, node string, k Knobs) *corev1.Pod {
 		Spec: corev1.PodSpec{Containers: []corev1.Container{container(t, l, pct(t, 50, l+"_small"))}},
 	}
 	if pct(t, 15, l+"_hostPort") {
-		p.Spec.Containers[0].Ports = []corev1.ContainerPort{hostPort(t, l+"_hp")}
+		p.Spec.Containers[0].Ports = hostPortList(t, l+"_hp")
 	}
 	if k.InterPod > 0 && pct(t, 15, l+"_anti") {
 		p.Spec.Affinity = &corev1.Affinity{PodAntiAffinity: &corev1.PodAntiAffinity{RequiredDuringSchedulingIgnoredDuringExecution: []corev1.PodAffinityTerm{{
